@@ -16,6 +16,11 @@
  *     SPIF_OBJ_DUP(o)           -> spif_str_dup(o)
  *     SPIF_OBJ_COMP(a, b)       -> spif_str_comp(a, b)
  *     SPIF_OBJ_SHOW(o, b, i)    -> spif_str_show(o, "", b, i)
+ *     SPIF_ALLOC(type)          -> exact-size typed allocation of sizeof(type) bytes (env_split.h VS_ALLOC_OBJ;
+ *                                  plain MALLOC/REALLOC requests use the fat-block model of env_split.h)
+ * The sources are included as "../src/x.c" (= $REPO/include/../src/x.c, the unannotated file of the tree
+ * under check): B units apply no loop contracts, and this keeps them independent of other owners'
+ * annotation tables for str.c / dlinked_list.c.
  * "Modulo tok's trimming": a tok token is compared with the split / grammar token after removal of leading
  * and trailing whitespace (vr_trim); a str whose buffer is NULL (what spif_str_trim leaves for an empty
  * string) counts as the empty string.
@@ -115,6 +120,8 @@ mem: 16
 #include "split.h"
 #include "ref.h"
 
+#undef SPIF_ALLOC
+#define SPIF_ALLOC(type)           VS_ALLOC_OBJ(type)
 #undef SPIF_LIST_NEW
 #undef SPIF_LIST_DEL
 #undef SPIF_LIST_APPEND
@@ -130,13 +137,13 @@ mem: 16
 #define SPIF_OBJ_COMP(a, b)        spif_str_comp((spif_str_t) (a), (spif_str_t) (b))
 #define SPIF_OBJ_SHOW(o, b, i)     spif_str_show((spif_str_t) (o), (spif_charptr_t) "", (b), (i))
 
-#include "src/obj.c"
-#include "src/str.c"
-#include "src/dlinked_list.c"
-#include "src/strings.c"
+#include "../src/obj.c"
+#include "../src/str.c"
+#include "../src/dlinked_list.c"
+#include "../src/strings.c"
 #undef IS_DELIM
 #undef IS_QUOTE
-#include "src/tok.c"
+#include "../src/tok.c"
 
 static char v_d1[2] = ":";
 static char v_d2[3] = " :";
